@@ -238,6 +238,34 @@ def render(idx, n):
                 return Err(format!("value {ci} (multi-use path): borrowed leaves moved between calls"));
             }}
         }}""")
+    # response series: which configured value a call observes is decided by its position in the
+    # series; every observed value is compared with the one configured for that position
+    def lit(d):
+        return '"' + d.replace("\\", "\\\\").replace('"', '\\"') + '"'
+    if clonable and len(vals) >= 2:
+        for i in range(len(vals)):
+            (e0, d0, _), (e1, d1, _) = vals[i], vals[(i + 1) % len(vals)]
+            series = [
+                ("Mk::f.each_call(matching!()).returns(v0).n_times(0).then().returns(v1)", [d1, d1, d1]),
+                ("Mk::f.some_call(matching!()).returns(v0).once().then().returns(v1)", [d0, d1, d1]),
+                ("Mk::f.next_call(matching!()).returns(v0).n_times(2).then().returns(v1)", [d0, d0, d1]),
+                ("Mk::f.each_call(matching!()).returns(v0.clone()).n_times(1).then().returns(v1).n_times(1).then().returns(v0)", [d0, d1, d0, d0]),
+                ("Mk::f.next_call(matching!()).returns(v0).n_times(0).then().returns(v1).n_times(2)", [d1, d1]),
+            ]
+            for clause, seq in series:
+                exp = ", ".join(lit(d) for d in seq)
+                cases.append(f"""
+        {{
+            let v0: {vt} = {e0};
+            let v1: {vt} = {e1};
+            let u = Unimock::new({clause}).no_verify_in_drop();
+            for (k, want) in [{exp}].iter().enumerate() {{
+                let got = vh::obs::catch(|| format!("{{:?}}", u.f()));
+                if got.as_deref() != Ok(*want) {{
+                    return Err(format!("series {{}} with values {i}/{(i + 1) % len(vals)}, call {{k}}: observed {{got:?}}, configured for this position: {{want}}", {lit(clause)}));
+                }}
+            }}
+        }}""")
     return f"""    #[unimock(api=Mk)]
     pub trait Tr {{
         fn f(&self) -> {rt};
